@@ -30,9 +30,33 @@ def run(repo, filt='', seed=0, timeout=1500):
             env['VX_C14_D13'] = '1'   # replay the recorded non-terminating judgement sets (4 x 5 s)
         cmd = ['cargo', 'test', '--offline', '--test', 'vx_witness', '--', '--nocapture', '--test-threads', '8']
         if filt:
-            cmd.insert(-3, filt) if False else cmd.insert(cmd.index('--') + 1, filt)
+            cmd.insert(cmd.index('--') + 1, filt)
         p = subprocess.run(cmd, cwd=dst, env=env, capture_output=True, text=True, timeout=timeout)
         out = p.stdout + '\n' + p.stderr
+        excluded = []
+        if 'could not compile' in out and 'test result:' not in out:
+            # a driver that no longer compiles against this tree (API changed by the edit under test, or a driver under
+            # construction) must not take the others with it: drop the offending driver modules and retry once
+            bad = sorted(set(re.findall(r'--> tests/vx_witness/(\w+)\.rs', out)) - {'main'})
+            if bad:
+                mainp = os.path.join(wdst, 'main.rs')
+                m = open(mainp).read()
+                for b in bad:
+                    m = re.sub(r'(?m)^mod %s;\s*$' % re.escape(b), '', m)
+                    try:
+                        os.remove(os.path.join(wdst, b + '.rs'))
+                    except OSError:
+                        pass
+                # drivers that import a dropped one go too
+                for f in os.listdir(wdst):
+                    if f.endswith('.rs') and f != 'main.rs' and any(re.search(r'\b%s::' % re.escape(b), open(os.path.join(wdst, f)).read()) for b in bad):
+                        m = re.sub(r'(?m)^mod %s;\s*$' % re.escape(f[:-3]), '', m)
+                        os.remove(os.path.join(wdst, f))
+                        bad.append(f[:-3])
+                open(mainp, 'w').write(m)
+                excluded = bad
+                p = subprocess.run(cmd, cwd=dst, env=env, capture_output=True, text=True, timeout=timeout)
+                out = p.stdout + '\n' + p.stderr
         wits = []
         for l in out.split('\n'):
             m = re.match(r'WITNESS property=(\S+) obligation=(\S+) input=(.*?) got=(.*?) want=(.*)$', l.strip())
@@ -47,7 +71,7 @@ def run(repo, filt='', seed=0, timeout=1500):
                          'got': 'the process was killed (' + (re.search(r'overflowed its stack|SIGABRT|SIGSEGV|signal: \d+', out).group(0)) + ')', 'want': 'layout or error'})
         cases = sum(int(m.group(1)) for m in re.finditer(r'CASES \S+ (\d+)', out))
         built = 'test result:' in out or bool(wits)
-        return {'ok': built, 'witnesses': wits, 'cases': cases, 'log': out[-3000:], 'wall': time.time() - t0,
+        return {'ok': built, 'witnesses': wits, 'cases': cases, 'log': out[-3000:], 'wall': time.time() - t0, 'excluded_drivers': excluded,
                 'cmd': 'cargo test --offline --test vx_witness -- ' + filt + ' (scratch copy of the working tree + /verif/witness)'}
     except subprocess.TimeoutExpired:
         return {'ok': False, 'witnesses': [], 'cases': 0, 'log': 'timeout', 'wall': time.time() - t0, 'cmd': ''}
